@@ -102,7 +102,7 @@ fn ostats_map(o: &OStats) -> BTreeMap<String, u64> {
         ingest_filtered_own, ingest_filtered_foreign, known_exact, known_exact_nonempty, known_safety_only,
         known_with_expired_entries, discovered_judged, discovered_skipped, dumps_judged, dump_entries,
         dumps_with_expired, c16_instances, c16_dump_checks, probes_sent, probes_answered, probes_excluded,
-        api_probes, resolver_probes, panics_seen, refresh_queries, truncated_accepted, announcements_judged, replies_in_several_datagrams, tokio_windows, tokio_replies_judged, tokio_known_exact, tokio_ingests, ipv6_ingests, ipv6_replies_judged);
+        api_probes, resolver_probes, resolver_calls, resolver_answers, resolver_deadlines_judged, panics_seen, refresh_queries, truncated_accepted, announcements_judged, replies_in_several_datagrams, tokio_windows, tokio_replies_judged, tokio_known_exact, tokio_ingests, ipv6_ingests, ipv6_replies_judged);
     m
 }
 
